@@ -24,7 +24,7 @@ def gen_cases(tier, seed):
     cases = []
     for k in range(n):
         cases.append({"epochs": int(rng.integers(1, 5)), "batches": int(rng.integers(1, 7)), "bs": int(rng.integers(2, 6)),
-                      "val": bool(k % 2), "val_batches": int(rng.integers(1, 4)), "evaluator": bool((k // 2) % 2 or k % 3 == 0),
+                      "val": bool(k % 2), "val_batches": int(rng.integers(1, 4)), "evaluator": bool((k // 2) % 2 or k % 3 == 0 or k % 4 == 1),
                       "mode": ["multi-class", "binary", "categorical"][k % 3], "opt": ["SGD", "Adam"][(k // 3) % 2],
                       "callbacks": bool(k % 4 == 1), "extra_metric": bool(k % 5 == 2), "test": bool(k % 3 == 1), "leftover": int(rng.integers(0, 2)),
                       "extra_param": bool(k % 4 == 2), "premode": [None, "sub-eval", "all-eval", None][k % 4],
@@ -32,7 +32,7 @@ def gen_cases(tier, seed):
                       "nested": bool(k % 3 == 0), "stale_grads": bool(k % 4 == 3),
                       "refit": bool(k % 5 == 0), "raising_callback": bool(k % 4 == 1), "binary_logits": bool(k % 6 == 1),
                       "soft_targets": bool(k % 2 == 0), "bn_tracking_off": bool(k % 7 == 2), "test_under_no_grad": bool(k % 2 == 1),
-                      "no_accuracy": bool(k % 11 == 7),
+                      "no_accuracy": bool(k % 11 == 7), "zero_loss_batches": bool(k % 12 == 2), "custom_layer": bool(k % 5 == 3),
                       "seed": int(rng.integers(2 ** 31))})
     return cases
 
@@ -55,6 +55,26 @@ def run_case(ns, ctx, c):
     elif mode == "binary":
         # a linear unit trained with a squared error on 0/1 labels: outputs are not confined to [0, 1]; the prediction is still "output > 0.5"
         layers[-1].weight.data = layers[-1].weight.data * 8.0
+    if c.get("custom_layer"):
+        # a layer written by the user with the public functional API: parameters pass through element-wise ops directly
+        # (non-negative gains via relu, a squashed shift, a normalised mixing matrix) - also during validation, where nothing is tracked
+        class Gate(nn.Module):
+            def __init__(self, n_):
+                super().__init__()
+                self.gain = nn.Parameter(T(np.linspace(-0.6, 1.4, n_).astype(np.float32), requires_grad=True))
+                self.shift = nn.Parameter(T(np.linspace(-2.0, 2.0, n_).astype(np.float32), requires_grad=True))
+                self.mix = nn.Parameter(T((np.arange(n_ * n_, dtype=np.float32).reshape(n_, n_) / (n_ * n_) - 0.4), requires_grad=True))
+
+            def forward(self, x):
+                g_ = sg.relu(self.gain) + sg.leaky_relu(self.gain, 0.1) * 0.1 + sg.selu(self.gain) * 0.05
+                return (x * g_ + sg.tanh(self.shift) + sg.sigmoid(self.shift) * 0.1) @ sg.softmax(self.mix, 1) + (self.gain * self.gain).sum() * 0.0
+        layers.insert(3, Gate(6))
+    zero_loss = bool(c.get("zero_loss_batches")) and mode == "categorical"
+    if zero_loss:
+        # a saturated (dead) output unit: the model answers exactly 0, so batches whose targets are all zero have a loss of exactly 0.0 -
+        # they are batches like any other (one clearing of the gradients, one backward, one optimizer step each)
+        layers[-1].bias.data = np.full_like(layers[-1].bias.data, -1e4)
+        layers.append(nn.ReLU())
     if c.get("nested"):
         # the stochastic / stateful layers sit two and three levels below the root
         layers = [layers[0], nn.Sequential(layers[1], layers[2], nn.Sequential(layers[3]))] + layers[4:]
@@ -94,6 +114,9 @@ def run_case(ns, ctx, c):
             y = np.eye(K, dtype=np.float32)[yi]
             if c.get("soft_targets"):
                 y = y * 0.7 + 0.1              # label smoothing: the target class is the arg-max of the row, which is below 1
+            if zero_loss:
+                for b_ in range(0, nb, 2):
+                    y[b_ * c["bs"]:(b_ + 1) * c["bs"]] = 0.0          # every other batch: all-zero targets, loss exactly 0.0
         return X, y
 
     def transform(loader, Xb, yb):
@@ -273,6 +296,35 @@ def run_case(ns, ctx, c):
                 after_exception = grad_on()
             except Exception as e:
                 after_exception = "other:" + type(e).__name__
+            if ev is not None and isinstance(after_exception, bool):
+                # the caller handled the exception and trains again with the same objects: the metrics of the new run are computed from the new
+                # run's samples only (nothing of the aborted epoch is left in the evaluator)
+                ev.epoch_callback = None
+                del events[:]
+                try:
+                    h3 = tr.fit(train_loader, 1)
+                    hits3 = []
+                    last_out = None
+                    for e_ in events:
+                        if e_["kind"] == "forward":
+                            last_out = e_["out"]
+                        elif e_["kind"] == "loss" and last_out is not None:
+                            lab_ = e_["labels"]
+                            if mode == "binary":
+                                pr_ = (last_out.reshape(-1) > 0.5).astype(int); tr_ = lab_.reshape(-1).astype(int)
+                            elif mode == "multi-class":
+                                pr_ = last_out.argmax(axis=1); tr_ = lab_.reshape(-1).astype(int)
+                            else:
+                                pr_ = last_out.argmax(axis=1); tr_ = lab_.argmax(axis=1)
+                            hits3.append((int((pr_ == tr_).sum()), len(tr_)))
+                    if hits3 and "accuracy" in h3 and len(h3["accuracy"]) >= 1 and not c.get("no_accuracy"):
+                        want3 = sum(h_ for h_, _ in hits3) / sum(n_ for _, n_ in hits3)
+                        if abs(float(h3["accuracy"][-1]) - want3) > 1e-5:
+                            viol.append(V(f"evaluator:{mode}:accuracy:after-aborted-run", f"accuracy of a fit that follows an aborted one is {h3['accuracy'][-1]}, "
+                                          f"the fraction of correct predictions over its own samples is {want3}", mode=mode))
+                    after_abort_checked = True
+                except Exception as e:
+                    viol.append(V("fit:raises:after-aborted-run", f"a fit that follows an aborted one raised {type(e).__name__}", error=str(e)[:200]))
     finally:
         ns.Tensor.backward = o_backward
         ns.tmod.gradient__ = True
